@@ -522,12 +522,10 @@ func closeWakesStreams(p *P, r *R, rule string) {
 				posts = append(posts, in)
 			}
 		})
-		r.count(rule, "safeCloseNotify calls in Session.Close", len(notifies), 1)
-		r.count(rule, "teardown posts in Session.Close", len(posts), 1)
-		held, _ := p.heldBefore(sessClose, p.mutexRegion("Session.streamLock"), false)
-		for _, ni := range notifies {
-			r.ob(rule, "Session.Close: every stream's notify channel is closed on the CAS-success path, under streamLock", p.ipos(ni), p.guardedByCall(ni, casM, true) && held[ni], true, "")
-			// it iterates the whole table
+		// a wake event is a direct safeCloseNotify call, or a call of a local helper whose every path runs the locked, ranged loop
+		notifyM := p.mCall("(*Stream).safeCloseNotify")
+		check := func(f *ssa.Function, ni ssa.Instruction) (bool, bool) {
+			held, _ := p.heldBefore(f, p.mutexRegion("Session.streamLock"), false)
 			ranged := false
 			if e, ok := ni.(*ssa.Call).Call.Args[0].(*ssa.Extract); ok {
 				if nx, ok := e.Tuple.(*ssa.Next); ok {
@@ -536,7 +534,50 @@ func closeWakesStreams(p *P, r *R, rule string) {
 					}
 				}
 			}
-			r.ob(rule, "Session.Close: the wake-up loop ranges over the whole stream table", p.ipos(ni), ranged, true, "")
+			return held[ni], ranged
+		}
+		type wakeEv struct {
+			in           ssa.Instruction
+			held, ranged bool
+		}
+		var evs []wakeEv
+		for _, ni := range notifies {
+			h, rg := check(sessClose, ni)
+			evs = append(evs, wakeEv{ni, h, rg})
+		}
+		allInstrs(sessClose, func(in ssa.Instruction) {
+			if _, isCall := in.(*ssa.Call); !isCall {
+				return
+			}
+			g := p.localCallee(in)
+			if g == nil || g == sessClose {
+				return
+			}
+			inner := findInstrs(g, notifyM)
+			if len(inner) == 0 {
+				return
+			}
+			h, rg := true, true
+			for _, ni := range inner {
+				h2, rg2 := check(g, ni)
+				h, rg = h && h2, rg && rg2
+			}
+			// every path through the helper runs the loop over the table
+			res := p.mustPass(g, []Point{{g.Blocks[0], -1}}, func(i2 ssa.Instruction) bool {
+				rgi, ok := i2.(*ssa.Range)
+				return ok && isLoadOf(rgi.X, "Session.streams")
+			}, nil, nil)
+			evs = append(evs, wakeEv{in, h, rg && res.OK})
+		})
+		notifies = nil
+		for _, e := range evs {
+			notifies = append(notifies, e.in)
+		}
+		r.count(rule, "safeCloseNotify calls in Session.Close", len(notifies), 1)
+		r.count(rule, "teardown posts in Session.Close", len(posts), 1)
+		for _, e := range evs {
+			r.ob(rule, "Session.Close: every stream's notify channel is closed on the CAS-success path, under streamLock", p.ipos(e.in), p.guardedByCall(e.in, casM, true) && e.held, true, "")
+			r.ob(rule, "Session.Close: the wake-up loop ranges over the whole stream table", p.ipos(e.in), e.ranged, true, "")
 		}
 		for _, po := range posts {
 			okOrder := len(closes) > 0
